@@ -181,8 +181,10 @@ class CIMNamespaceProvider(InstanceWriteProvider):
         # Allows namespace to exist but fails if and instance of
         # CIMInstanceName exists with this name
 
+        namespace_added = False
         if new_namespace not in self.cimrepository.namespaces:
             self.add_namespace(new_namespace)
+            namespace_added = True
         else:
             # If instance exists of CIM_Namespace for this new_instance.name
             # generate exception. This accounts for possible differences
@@ -201,9 +203,16 @@ class CIMNamespaceProvider(InstanceWriteProvider):
                             namespace))
 
         # Create the CIM instance for the new namespace in the CIM repository,
-        # by delegating to the default provider method.
-        return super().CreateInstance(
-            namespace, new_instance)
+        # by delegating to the default provider method. If that fails, the
+        # namespace added above is removed again so that a failed creation
+        # leaves the CIM repository unchanged.
+        try:
+            return super().CreateInstance(
+                namespace, new_instance)
+        except Exception:
+            if namespace_added:
+                self.remove_namespace(new_namespace)
+            raise
 
     def ModifyInstance(self, modified_instance, IncludeQualifiers=None):
         """
